@@ -144,7 +144,11 @@ Definition pc_code (p : oppc) : list N :=
 Definition src_code (v : option val) : list N :=
   match v with
   | None => [0]
-  | Some v => match v_src v with SPeer j k => [1; N.of_nat j; N.of_nat k] | SWatch => [2] end
+  | Some v => (match v_src v with SPeer j k => [1; N.of_nat j; N.of_nat k] | SWatch => [2] end)
+              ++ (match v_err v with
+                  | None => [0]
+                  | Some e => [1; Z.to_N (Z.abs (we_code e)); N.of_nat (length (we_msg e))] ++ we_msg e ++ we_data e
+                  end) ++ [253] ++ v_res v
   end%N.
 Definition fp (s : state) : list N :=
   flat_map (fun o => pc_code (o_pc o) ++ map N.of_nat (o_slots o) ++ [(match o_ctx o with None => 0 | Some WCancel => 1 | Some WDeadline => 2 end); 255]%N) (ops s)
